@@ -1,6 +1,7 @@
 //! avh — the implementation side of the correspondence checks and the property oracles.
 //! Every subcommand runs the REAL library built from /repo's working tree.
 mod names;
+mod regexes;
 mod spec;
 mod util;
 
@@ -15,6 +16,7 @@ fn main() {
         "names" => names::main(&args[2..]),
         "spec-types" => spec::types_main(&args[2..]),
         "spec" => spec::main(&args[2..]),
+        "regex" => regexes::main(&args[2..]),
         other => {
             eprintln!("unknown subcommand {}", other);
             std::process::exit(2);
